@@ -149,8 +149,8 @@ def run_job(arg):
 def replay_file(prop, path, timeout=120):
     """-> (status, text): status in 'reproduced' / 'not-reproduced' / 'error'"""
     env_ = dict(os.environ)
-    env_["PYTHONPATH"] = "/repo/src:" + VERIF
-    env_.pop("WSX_WAITRESS_SRC", None)
+    src = os.path.dirname(os.environ.get("WSX_WAITRESS_SRC", "/repo/src/waitress").rstrip("/"))
+    env_["PYTHONPATH"] = src + ":" + VERIF
     try:
         p = subprocess.run([sys.executable, "-m", "wsx.replay_main", prop, path], cwd=VERIF, env=env_,
                            capture_output=True, text=True, timeout=timeout)
@@ -188,7 +188,10 @@ def check(prop, tier, nproc=None, budget_s=None, only=None):
     args = [(prop, j, tier, deadline, known_ids) for j in jobs]
     results = []
     ctx = multiprocessing.get_context("fork")
-    if nproc == 1 or len(args) == 1:
+    witness_only = only == "@witness"
+    if witness_only:
+        only = None
+    if nproc == 1 or len(args) <= 1:
         for a in args:
             results.append(run_job(a))
     else:
@@ -224,7 +227,7 @@ def check(prop, tier, nproc=None, budget_s=None, only=None):
         for k, v in r.get("extra", {}).items():
             extra[k] = extra.get(k, 0) + v if isinstance(v, (int, float)) else v
     missing_goals = [g for g in getattr(H, "GOALS", []) if goals.get(g, 0) == 0]
-    if not only:
+    if not only and not witness_only:
         for g in missing_goals:
             problems.append("reachability goal never hit (vacuity guard): %s" % g)
     if os.environ.get("WSX_TRIAGE"):
